@@ -10,6 +10,8 @@ from harness import common as C
 from harness import partlib as L
 
 TRUSTED = [
+    "translators/paths2coq.py (Python ast -> Gallina; fail closed) and its prelude coq/theories/Impl/PyPaths.v (what a break-search loop, %s formatting, rsplit(c, 1)[0], len(set(l)), truth values, isinstance(o, pd.Timestamp) / isoformat / str mean), the template of the _path_to_cats loop skeleton; the regenerated text is also evaluated by the kernel "
+    "against the real functions on sampled inputs on every run",
     "Coq 8.16.1 kernel + coqc (vm_compute only for the closed Example); no native_compute",
     "extraction: ExtrOcamlBasic only, no Extract Constant; ocaml/driver.ml s-expression I/O",
     "what api.ParquetFile shows of one file (file_scheme, schema, row groups) is an input of the merge model; reading one "
